@@ -599,6 +599,7 @@ func checkC11(c *Ctx) {
 	c.Clause("RemoveBackend looks the name up and removes it in one write-locked critical section; AddBackend accepts only an http(s) URL with a host (anything else is an error before any state changes)")
 	c.Clause("AddBackend refuses a name that is already listed (an error, nothing changed): 'no backend of that name' is about one backend")
 	c.Clause("an admin request is decoded into a fresh variable of the handler call (nothing pooled or shared): fields a body leaves out are zero, not an earlier request's")
+	c.Clause("each strategy's AddBackend extends its pool by one append and touches nothing else of it (an in-place insertion overwrites or shifts the backends already there)")
 	c.NotDecided("linearizability of concurrent histories beyond mutual exclusion; that in-flight requests complete")
 
 	lockOrder(c, "LoadBalancer.mutex", "Strategy.mutex", "Strategy.mu")
@@ -894,6 +895,7 @@ func checkC11(c *Ctx) {
 	c.backendAddressUsable()
 	c.backendNamesUnique()
 	c.adminRequestFresh()
+	c.strategyAddAppends()
 	// 5. admin handlers
 	nm := p.Fn("internal/adminapi", "", "NewMux")
 	if nm == nil {
